@@ -601,6 +601,29 @@ impl StorageEngine {
             return Ok(0);
         }
 
+        // Check arity consistency before anything is logged (same checks as insert).
+        // A tuple of a different arity can never be stored in the relation, and logging
+        // it would leave the shard with mixed-arity updates that cannot be written to a
+        // batch file: every later flush - including the one on startup - would fail.
+        let del_arity = tuples.first().map_or(0, super::value::Tuple::arity);
+        for tuple in &tuples {
+            if tuple.arity() != del_arity {
+                return Err(StorageError::Other(format!(
+                    "Arity mismatch in delete batch: expected {}, got {}",
+                    del_arity,
+                    tuple.arity()
+                )));
+            }
+        }
+        if let Some((existing_schema, _)) = self.get_relation_metadata_in(kg, relation)? {
+            let existing_arity = existing_schema.len();
+            if existing_arity != del_arity {
+                return Err(StorageError::Other(format!(
+                    "Arity mismatch for relation '{relation}': existing arity is {existing_arity}, but trying to delete tuples with arity {del_arity}"
+                )));
+            }
+        }
+
         // Hold dropping_kgs read guard across the persist operation (same as insert)
         let dropping_guard = self.dropping_kgs.read();
         if dropping_guard.contains(kg) {
@@ -4449,6 +4472,34 @@ mod tests {
             .delete_tuples_from("default", "rel", vec![])
             .unwrap();
         assert_eq!(count, 0);
+    }
+
+    #[test]
+    fn test_delete_wrong_arity_is_rejected_and_store_reopens() {
+        let temp = TempDir::new().unwrap();
+        let mut config = create_test_config(temp.path().to_path_buf());
+        config.storage.persist.buffer_size = 2; // flush on the second buffered update
+        {
+            let storage = StorageEngine::new(config.clone()).unwrap();
+            storage
+                .insert_tuples_into("default", "rel", vec![Tuple::from_pair(1, 2)])
+                .unwrap();
+            // arity 1 against a binary relation: must not reach the log
+            let wrong = Tuple::new(vec![crate::value::Value::Int64(1)]);
+            assert!(storage
+                .delete_tuples_from("default", "rel", vec![wrong])
+                .is_err());
+            // the relation keeps working and can still be flushed
+            storage
+                .insert_tuples_into("default", "rel", vec![Tuple::from_pair(3, 4)])
+                .unwrap();
+            storage.save_all().unwrap();
+        }
+        let storage = StorageEngine::new(config).unwrap();
+        let rows = storage
+            .execute_query_tuples_on("default", "q(X, Y) <- rel(X, Y)")
+            .unwrap();
+        assert_eq!(rows.len(), 2);
     }
 
     #[test]
